@@ -381,4 +381,101 @@ def FT.skL : List FT → List Sk
   | c :: cs => FT.sk c :: FT.skL cs
 end
 
+/-! ## specification only: the trees on which the sibling-pair comparison of `_get_subtree_shift` is exact
+
+For two siblings `l` (index `i`) and `r` (index `j`, `i < j`) `_get_subtree_shift` walks down in lock
+step: from `l` to its last child, then — if that node has no children — to its nearest left sibling
+that has children (`scanLeft`), to that node's last child, …; mirrored in `r`. Two things can go wrong
+(both are behind the known finding K1):
+
+* the *walk* can end although the subtree is deeper (the next level of the contour belongs to a
+  cousin, not to a sibling, of the current node): `rwalk`/`lwalk` count the levels the walk visits,
+  `height` the levels that exist;
+* for `i > 0` the shift found on one level is divided by `1 - i/j` and accumulated in that scaled form,
+  so that from the second compared level on the need is under-estimated.
+
+`Sk.Exact` excludes exactly these two situations, pair by pair: the pair `(0, j)` must have walks that
+reach as deep as the shallower of the two subtrees, a pair `(i, j)` with `i > 0` must have only one level
+to compare (one of the two subtrees has height ≤ 2). Nothing below is used by the driver. -/
+
+namespace Sk
+
+mutual
+/-- number of levels of the subtree (a single node: 1) -/
+def height : Sk → Nat
+  | .node cs => 1 + heightL cs
+/-- number of levels of a forest -/
+def heightL : List Sk → Nat
+  | [] => 0
+  | c :: cs => max (height c) (heightL cs)
+end
+
+def hasKids : Sk → Bool
+  | .node cs => !cs.isEmpty
+
+mutual
+/-- number of levels the right-contour walk visits in the subtree (last child, `scanLeft`, last child, …) -/
+def rwalk : Sk → Nat
+  | .node cs => 1 + rwalkL cs
+/-- … in a sibling group whose last member is the current node of the walk -/
+def rwalkL : List Sk → Nat
+  | [] => 0
+  | c :: cs => if cs.any hasKids then rwalkL cs else rwalk c
+end
+
+mutual
+/-- number of levels the left-contour walk visits in the subtree (first child, `scanRight`, first child, …) -/
+def lwalk : Sk → Nat
+  | .node cs => 1 + lwalkL cs
+/-- … in a sibling group whose first member is the current node of the walk -/
+def lwalkL : List Sk → Nat
+  | [] => 0
+  | c :: cs => if hasKids c || cs.isEmpty then lwalk c else lwalkL cs
+end
+
+/-- the facing walks of `a` (left) and `b` (right) reach every level that exists in both subtrees -/
+def pairExact (a b : Sk) : Bool := decide (min a.height b.height ≤ min a.rwalk b.lwalk)
+/-- only one level below the two siblings exists in both subtrees -/
+def shallow (a b : Sk) : Bool := decide (min a.height b.height ≤ 2)
+
+/-- all pairs `(i, j)`, `0 < i < j`, of the group `c :: cs` seen from `c` as the left one -/
+def shallowFrom (c : Sk) : List Sk → Bool
+  | [] => true
+  | d :: ds => shallow c d && shallowFrom c ds
+
+/-- `cs.Pairwise shallow` -/
+def shallowPairs : List Sk → Bool
+  | [] => true
+  | c :: cs => shallowFrom c cs && shallowPairs cs
+
+/-- `∀ c ∈ cs, pairExact c0 c` -/
+def exactFrom (c0 : Sk) : List Sk → Bool
+  | [] => true
+  | c :: cs => pairExact c0 c && exactFrom c0 cs
+
+/-- condition on one sibling group: first child against every other: exact walks;
+    any two later children: one compared level -/
+def groupOK : List Sk → Bool
+  | [] => true
+  | c0 :: rest => exactFrom c0 rest && shallowPairs rest
+
+mutual
+/-- every sibling group of the tree satisfies `groupOK` -/
+def exact : Sk → Bool
+  | .node cs => groupOK cs && exactL cs
+def exactL : List Sk → Bool
+  | [] => true
+  | c :: cs => exact c && exactL cs
+end
+
+end Sk
+
+/-- the class of trees for which the cousin clause of C19 is proved (`C19.rt_cousins_partial`) -/
+def ST.ChainExact (t : ST) : Prop := t.sk.exact = true
+instance (t : ST) : Decidable t.ChainExact := inferInstanceAs (Decidable (_ = true))
+
+/-- the same for a fresh tree -/
+def ChainExact (t : Tree) : Prop := (ST.ofTree t).ChainExact
+instance (t : Tree) : Decidable (ChainExact t) := inferInstanceAs (Decidable (ST.ChainExact _))
+
 end Plot
